@@ -162,8 +162,10 @@ def _keep_ignored_lines(source: str, new_source: str) -> str:
     For use around steps that only change whitespace within lines.
     """
     pattern = re.compile(r"#\s*pyrefact\s*:\s*(skip_file|ignore)")
-    ignored_lines = [line for line in source.splitlines(keepends=True) if pattern.search(line)]
-    new_lines = new_source.splitlines(keepends=True)
+    # The lines that the parser sees: a form feed or a Unicode line separator does not end a line
+    lines = io.StringIO(source, newline="").readlines()
+    ignored_lines = [line for line in lines if pattern.search(line)]
+    new_lines = io.StringIO(new_source, newline="").readlines()
     new_indices = [i for i, line in enumerate(new_lines) if pattern.search(line)]
     if len(new_indices) != len(ignored_lines):
         return new_source
